@@ -32,11 +32,11 @@ TRUSTED_BASE = [
 ASSUMPTIONS = [
     "keyword arguments, the bound variable and macro default values are evaluated at the call site (in the caller's scope): they are the explicit arguments the property lets through",
     "global data = the caller context's globals: render arguments, front matter, template and environment globals of the *top-level* template, plus the namespaces of enclosing render/call tags",
-    "inline snippets, {% extends %} inside macros, LAX/WARN modes, filters and the async path are outside this model (disabled_block covers block/extends on the engine only)",
+    "inline snippets, block.super, required blocks, LAX/WARN modes and filters are outside this model (extends / block / tablerow are in it since the deepening round; disabled_block and 4 iso_corners cases that need the split filter run on the engine only)",
 ]
 MANIFEST = {
     "technique": "Lean 4 proof (non-interference of the render / call tags in the caller's state, frame conditions, disabled include) + metamorphic and differential correspondence",
-    "text": "Theorems render_isolated, render_isolated_names, render_isolated_locals, partial_sees_only_args_and_globals, render_no_leak, copied_disables_include, include_disabled, block_with_include_fails, call_isolated, call_no_leak hold for all caller states, partial bodies, arguments and nesting; the model is tied to the code by random caller-pair programs and an exhaustive disabled-include stream.",
+    "text": "Theorems render_isolated (over _isolated_globals), render_isolated_in_block, render_isolated_in_block_locals, call_isolated_in_block, bound_variable_arrives, bound_item_arrives, render_isolated_names, render_isolated_locals, partial_sees_only_args_and_globals, render_no_leak, copied_disables_include, include_disabled, block_with_include_fails, call_isolated, call_no_leak hold for all caller states, partial bodies, arguments and nesting; the model is tied to the code by random caller-pair programs and an exhaustive disabled-include stream.",
     "note": "Trusted: Lean kernel, the hand model of RenderContext.copy / render / call (STRICT mode), the harness. Arguments and defaults are evaluated in the caller's scope by design.",
 }
 
@@ -334,7 +334,7 @@ class IsoCornersStream(Stream):
 
     name = "iso_corners"
     exhaustive = True
-    has_model = False
+    has_model = True
 
     def cases(self, ctx):
         out = []
@@ -348,33 +348,50 @@ class IsoCornersStream(Stream):
                     out.append({"kind": "bound", "form": form, "glob": glob, "assigned": assigned})
         return out
 
+    def prog(self, case):
+        """the case as a scope program (model + engine), or None when it needs a filter (`split`)"""
+        P = lambda name, *tail: ["path", ["n", name], list(tail)]
+        show = [["text", "["], ["out", P("secret")], ["text", "|"], ["out", P("it")], ["text", "|"], ["out", P("g")], ["text", "]"]]
+        if case["kind"] == "block":
+            use = {"render": [["render", "p", None, []]],
+                   "render-with": [["render", "p", [False, P("zz", ["i", 0]), "it"], []]],
+                   "render-for": [["render", "p", [True, P("zz"), "it"], []]],
+                   "call": [["macro", "m", [], show], ["call", "m", [], []]]}[case["via"]]
+            parts = {"p": show,
+                     "base": [["assign", "secret", ["lit", "S"]], ["text", "<"], ["block", "b", [["text", "base"]]], ["text", ">"]]}
+            parent = "base"
+            if case["levels"] == 2:
+                parts["mid"] = [["extends", "base"], ["block", "b", [["text", "("], ["out", P("block", ["n", "super"])], ["text", ")"]]]]
+                parent = "mid"
+            main = [["extends", parent], ["block", "b", use]]
+            data = {"zz": [7]}
+            if case["glob"]:
+                data["g"] = "G"
+            return {"main": main, "partials": parts, "args": data}
+        if case["form"] in ("for", "for-as") and case["assigned"]:
+            return None
+        bind = {"with": [False, P("x"), None], "with-as": [False, P("x"), "it"], "for": [True, P("xs"), None], "for-as": [True, P("xs"), "it"]}[case["form"]]
+        main = ([["assign", "x", ["lit", 5]]] if case["assigned"] else []) + [["render", "it", bind, []]]
+        data = {} if case["assigned"] else {"x": 5, "xs": ["5"]}
+        if case["glob"]:
+            data["g"] = "G"
+        return {"main": main, "partials": {"it": [["text", "["], ["out", P("it")], ["text", "]"]]}, "args": data}
+
+    def line(self, case):
+        p = self.prog(case)
+        return None if p is None else scopeprog.model_line(p)
+
     def impl(self, case):
         from liquid import DictLoader, Environment
 
+        p = self.prog(case)
+        if p is not None:
+            return scopeprog.run_impl(p)
         try:
-            if case["kind"] == "block":
-                use = {"render": "{% render 'p' %}", "render-with": "{% render 'p' with zz[0] as it %}", "render-for": "{% render 'p' for zz as it %}",
-                       "call": "{% macro m %}[{{ secret }}|{{ it }}|{{ g }}]{% endmacro %}{% call m %}"}[case["via"]]
-                parts = {"p": "[{{ secret }}|{{ it }}|{{ g }}]", "base": "{% assign secret = 'S' %}<{% block b %}base{% endblock %}>"}
-                child = "{% extends 'base' %}{% block b %}" + use + "{% endblock %}"
-                if case["levels"] == 2:
-                    parts["mid"] = "{% extends 'base' %}{% block b %}({{ block.super }}){% endblock %}"
-                    parts["leaf"] = "{% extends 'mid' %}{% block b %}" + use + "{% endblock %}"
-                    name = "leaf"
-                else:
-                    parts["leaf"] = child
-                    name = "leaf"
-                env = Environment(loader=DictLoader(parts), extra=True)
-                data = {"zz": [7]}
-                if case["glob"]:
-                    data["g"] = "G"
-                return {"ok": env.get_template(name).render(**data)}
             tail = {"with": "with x", "with-as": "with x as it", "for": "for xs", "for-as": "for xs as it"}[case["form"]]
-            src = ("{% assign x = 5 %}{% assign xs = '5' | split: ',' %}" if case["assigned"] else "") + "{% render 'it' " + tail + " %}"
+            src = "{% assign x = 5 %}{% assign xs = '5' | split: ',' %}{% render 'it' " + tail + " %}"
             env = Environment(loader=DictLoader({"it": "[{{ it }}]"}), extra=True)
-            data = {} if case["assigned"] else {"x": 5, "xs": ["5"]}
-            if case["glob"]:
-                data["g"] = "G"
+            data = {"g": "G"} if case["glob"] else {}
             return {"ok": env.from_string(src).render(**data)}
         except Exception as e:  # noqa: BLE001
             return {"err": type(e).__name__}
